@@ -53,8 +53,14 @@ _reg("vc.k", lambda d: d.k.value_counts(), lambda df: df["k"].value_counts(), Fa
 _reg("vc.x", lambda d: d.x.value_counts(), lambda df: df["x"].value_counts(), False, "AVC", keycol="x")
 
 
+# case["gsrc"]: the streaming-series grouper is taken from the UNFILTERED frame (pandas aligns it with the grouped frame
+# by index), built before ("early") or after ("late") the grouped frame: the order in which the source serves the two
+# branches differs, the result must not
+_KEY = [None]
+
+
 def _grp(d, gm, vs):
-    g = d.groupby("k") if gm == "gc" else d.groupby(d.k)
+    g = d.groupby("k") if gm == "gc" else d.groupby(_KEY[0] if _KEY[0] is not None else d.k)
     return g.x if vs == "x" else g[XY]
 
 
@@ -109,9 +115,17 @@ def build_pipeline(case, start_kw=None):
     from streamz.dataframe import DataFrame
     src = Stream()
     sdf = DataFrame(src, example=dfc.example_df(case.get("dtype", "float"), case.get("ex", "row")))
+    sdf0 = sdf
+    key = sdf0.k if case.get("gsrc") == "early" else None
     if case.get("filt") is not None:
         sdf = sdf[sdf.x > case["filt"]]
-    out = AGGS[case["agg"]]["build"](sdf)
+    if case.get("gsrc") == "late":
+        key = sdf0.k
+    _KEY[0] = key
+    try:
+        out = AGGS[case["agg"]]["build"](sdf)
+    finally:
+        _KEY[0] = None
     return src, out
 
 
